@@ -200,39 +200,23 @@ Proof.
   f_equal. clear. induction a as [|y t IH]; simpl; [reflexivity|now rewrite IH].
 Qed.
 
-Context (same : A -> A -> bool).
-Hypothesis same_refl : forall x, same x x = true.
-
-(* queue_find: finds, and with remove=True removes, exactly the LAST element
-   satisfying key; nothing else moves; never raises; not found = unchanged *)
-Theorem queue_find_spec (d : deque) key (rm : bool) :
-  (  (forall x, In x d -> key x = false) /\ queue_find same d key rm = Ok None d )
-  \/ (exists a h b, d = a ++ h :: b /\ key h = true /\ (forall x, In x b -> key x = false)
-       /\ queue_find same d key rm = Ok (Some h) (if rm then a ++ b else d)).
+Lemma scan_skip key (l1 l2 : deque) i :
+  (forall x, In x l1 -> key x = false) -> scan key (l1 ++ l2) i = scan key l2 (i + length l1).
 Proof.
-  unfold queue_find. destruct (rscan key d) as [[j h]|] eqn:S.
-  - right. destruct (@rscan_some _ _ _ _ S) as (a & b & E & Kh & Kb & ->).
-    exists a, h, b. repeat split; auto. destruct rm; [|reflexivity].
-    rewrite E, deque_pop_split, same_refl. reflexivity.
-  - left. split; [now apply rscan_none|reflexivity].
+  revert i. induction l1 as [|y t IH]; intros i Hf; simpl.
+  - now rewrite Nat.add_0_r.
+  - rewrite (Hf y) by (simpl; auto). rewrite IH by (intros x Hx; apply Hf; simpl; auto).
+    f_equal. lia.
 Qed.
 
-Hypothesis same_eq : forall x y, same x y = true -> x = y.
-
-(* queue_remove: removes the last occurrence of the identical handle;
-   ValueError, deque unchanged, when it is not there *)
-Theorem queue_remove_spec (d : deque) (h : A) :
-  (  ~ In h d /\ queue_remove same d h = Raise ValueError d )
-  \/ (exists a b, d = a ++ h :: b /\ ~ In h b /\ queue_remove same d h = Ok tt (a ++ b)).
+(* the scan from the end stops at h when nothing after h matches *)
+Lemma rscan_split key (a b : deque) (h : A) :
+  key h = true -> (forall x, In x b -> key x = false) ->
+  rscan key (a ++ h :: b) = Some (length b, h).
 Proof.
-  unfold queue_remove. destruct (rscan (same h) d) as [[j h']|] eqn:S.
-  - right. destruct (@rscan_some _ _ _ _ S) as (a & b & E & Kh & Kb & ->).
-    apply same_eq in Kh. subst h'.
-    exists a, b. repeat split; auto.
-    + intros Hin. apply Kb in Hin. rewrite same_refl in Hin. discriminate.
-    + rewrite E, deque_pop_split. reflexivity.
-  - left. split; [|reflexivity]. intros Hin.
-    rewrite rscan_none in S. apply S in Hin. rewrite same_refl in Hin. discriminate.
+  intros Kh Kb. unfold rscan. rewrite rev_app_distr. simpl. rewrite <- app_assoc. simpl.
+  rewrite scan_skip by (intros x Hx; apply Kb; now apply in_rev).
+  simpl. rewrite Kh, rev_length. reflexivity.
 Qed.
 
 (* ------------------------------------------------------------------ *)
@@ -253,6 +237,30 @@ Lemma split_len (d : deque) (k : nat) :
 Proof.
   intros Hk. exists (firstn k d), (skipn k d). split; [now rewrite firstn_skipn|].
   rewrite firstn_length. lia.
+Qed.
+
+Lemma insert_nth_0 (d : deque) (x : A) : insert_nth d 0 x = x :: d.
+Proof. now destruct d. Qed.
+
+Lemma insert_nth_split (d : deque) (n : nat) (x : A) :
+  n <= length d -> exists a b, d = a ++ b /\ length a = n /\ insert_nth d n x = a ++ x :: b.
+Proof.
+  intros Hn. destruct (@split_len d n Hn) as (a & b & E & La).
+  exists a, b. repeat split; auto. subst d. rewrite <- La. apply insert_nth_app.
+Qed.
+
+Lemma insert_nth_perm (d : deque) (n : nat) (x : A) : Permutation (x :: d) (insert_nth d n x).
+Proof.
+  revert d. induction n as [|n IH]; intros d; simpl.
+  - destruct d; reflexivity.
+  - destruct d as [|y t]; [reflexivity|]. rewrite perm_swap. constructor. apply IH.
+Qed.
+
+Lemma list_insert_nat (d : deque) (p : nat) (x : A) :
+  list_insert d (Z.of_nat p) x = insert_nth d (Nat.min p (length d)) x.
+Proof.
+  unfold list_insert, ins_index, norm_index.
+  replace (Z.of_nat p <? 0)%Z with false by lia. f_equal. lia.
 Qed.
 
 Theorem dinsert_spec (d : deque) (i : Z) (x : A) : dinsert d i x = list_insert d i x.
@@ -285,6 +293,73 @@ Proof.
     replace (x :: b ++ a) with ((x :: b) ++ a) by reflexivity.
     replace i with (Z.of_nat (length a)) by lia.
     rewrite rotate_app_r. reflexivity.
+Qed.
+
+Context (same : A -> A -> bool).
+Hypothesis same_refl : forall x, same x x = true.
+
+(* queue_find: finds, and with remove=True removes, exactly the LAST element
+   satisfying key; nothing else moves; never raises; not found = unchanged *)
+Theorem queue_find_spec (d : deque) key (rm : bool) :
+  (  (forall x, In x d -> key x = false) /\ queue_find same d key rm = Ok None d )
+  \/ (exists a h b, d = a ++ h :: b /\ key h = true /\ (forall x, In x b -> key x = false)
+       /\ queue_find same d key rm = Ok (Some h) (if rm then a ++ b else d)).
+Proof.
+  unfold queue_find. destruct (rscan key d) as [[j h]|] eqn:S.
+  - right. destruct (@rscan_some _ _ _ _ S) as (a & b & E & Kh & Kb & ->).
+    exists a, h, b. repeat split; auto. destruct rm; [|reflexivity].
+    rewrite E, deque_pop_split, same_refl. reflexivity.
+  - left. split; [now apply rscan_none|reflexivity].
+Qed.
+
+(* computational forms of queue_find_spec *)
+Lemma queue_find_split (a b : deque) (h : A) key (rm : bool) :
+  key h = true -> (forall x, In x b -> key x = false) ->
+  queue_find same (a ++ h :: b) key rm = Ok (Some h) (if rm then a ++ b else a ++ h :: b).
+Proof.
+  intros Kh Kb. unfold queue_find. rewrite (@rscan_split key a b h Kh Kb).
+  destruct rm; [|reflexivity]. now rewrite deque_pop_split, same_refl.
+Qed.
+
+Lemma queue_find_none (d : deque) key (rm : bool) :
+  (forall x, In x d -> key x = false) -> queue_find same d key rm = Ok None d.
+Proof. intros Hd. unfold queue_find. apply rscan_none in Hd. now rewrite Hd. Qed.
+
+Hypothesis same_eq : forall x y, same x y = true -> x = y.
+
+(* queue_remove: removes the last occurrence of the identical handle;
+   ValueError, deque unchanged, when it is not there *)
+Theorem queue_remove_spec (d : deque) (h : A) :
+  (  ~ In h d /\ queue_remove same d h = Raise ValueError d )
+  \/ (exists a b, d = a ++ h :: b /\ ~ In h b /\ queue_remove same d h = Ok tt (a ++ b)).
+Proof.
+  unfold queue_remove. destruct (rscan (same h) d) as [[j h']|] eqn:S.
+  - right. destruct (@rscan_some _ _ _ _ S) as (a & b & E & Kh & Kb & ->).
+    apply same_eq in Kh. subst h'.
+    exists a, b. repeat split; auto.
+    + intros Hin. apply Kb in Hin. rewrite same_refl in Hin. discriminate.
+    + rewrite E, deque_pop_split. reflexivity.
+  - left. split; [|reflexivity]. intros Hin.
+    rewrite rscan_none in S. apply S in Hin. rewrite same_refl in Hin. discriminate.
+Qed.
+
+Lemma queue_remove_split (a b : deque) (h : A) :
+  ~ In h b -> queue_remove same (a ++ h :: b) h = Ok tt (a ++ b).
+Proof.
+  intros Hb. unfold queue_remove.
+  rewrite (@rscan_split (same h) a b h (same_refl h)).
+  - now rewrite deque_pop_split.
+  - intros x Hx. destruct (same h x) eqn:E; [|reflexivity]. apply same_eq in E. now subst.
+Qed.
+
+Lemma queue_remove_absent (d : deque) (h : A) :
+  ~ In h d -> queue_remove same d h = Raise ValueError d.
+Proof.
+  intros Hd. unfold queue_remove.
+  assert (E : rscan (same h) d = None).
+  { apply rscan_none. intros x Hx. destruct (same h x) eqn:E; [|reflexivity].
+    apply same_eq in E. now subst. }
+  now rewrite E.
 Qed.
 
 (* call_pos: h ends up after exactly min(pos, len) earlier entries (pos >= 0);
